@@ -2087,7 +2087,7 @@ func (ex *Exec) fnTerm(key string, j int, sort string, args []Val) string {
 			terms = append(terms, a.L[i])
 		}
 	}
-	f := ex.declFun(fmt.Sprintf("fn|%s#%d", key, j), sorts, sort)
+	f := ex.declFun(fmt.Sprintf("uf|fn:%s#%d", key, j), sorts, sort) // a spec can name it: uf("fn:<key>#<j>", T, args...)
 	if len(terms) == 0 {
 		return f
 	}
